@@ -40,6 +40,17 @@ def skip_string(stream) -> int:
     return len(compact.to_bytes(l)) + l
 
 
+def count_slot(signed: set, slot) -> int:
+    """
+    Counts a signature filed under slot (input, key[, leaf]):
+    1 and the slot is remembered in signed, 0 if this call signed for the slot already.
+    """
+    if slot in signed:
+        return 0
+    signed.add(slot)
+    return 1
+
+
 class DerivationPath(EmbitBase):
     def __init__(self, fingerprint: bytes, derivation: list):
         self.fingerprint = fingerprint
@@ -959,8 +970,14 @@ class PSBT(EmbitBase):
         input_index: int,
         inp=None,
         sighash=SIGHASH.DEFAULT,
+        signed=None,
     ) -> int:
-        """Sign taproot input with key. Signs with internal or leaf key."""
+        """
+        Sign taproot input with key. Signs with internal or leaf key.
+        Signatures for (input, key, leaf) slots that are in signed already are not counted again.
+        """
+        if signed is None:
+            signed = set()
         # get input ourselves if not provided
         inp = inp or self.inputs[input_index]
         if not inp.is_taproot:
@@ -979,7 +996,7 @@ class PSBT(EmbitBase):
             # TODO: maybe better to put into internal key sig field
             inp.final_scriptwitness = Witness([wit])
             # no need to sign anything else
-            return 1
+            return count_slot(signed, (input_index, None))
         counter = 0
         # negate if necessary
         pub = ec.PublicKey.from_xonly(key.xonly())
@@ -1005,26 +1022,32 @@ class PSBT(EmbitBase):
             if sighash != SIGHASH.DEFAULT:
                 sigdata += bytes([sighash])
             inp.taproot_sigs[(pub, leaf)] = sigdata
-            counter += 1
+            counter += count_slot(signed, (input_index, pub, leaf))
         return counter
 
     def sign_with(self, root, sighash=SIGHASH.DEFAULT) -> int:
         """
         Signs psbt with root key (HDKey or similar).
-        Returns number of signatures added to PSBT.
+        Returns number of signatures added to PSBT:
+        every (input, key) a signature is filed under is counted once.
         Sighash kwarg is set to SIGHASH.DEFAULT,
         for segwit and legacy it's replaced to SIGHASH.ALL
         so if PSBT is asking to sign with a different sighash this function won't sign.
         If you want to sign with sighashes provided in the PSBT - set sighash=None.
         """
-        counter = 0  # sigs counter
+        # (input, key[, leaf]) slots this call filed a signature under
+        signed = set()
         # check if it's a descriptor, and sign with all private keys in this descriptor
         if hasattr(root, "keys"):
+            counter = 0  # sigs counter
             for k in root.keys:
                 if hasattr(k, "is_private") and k.is_private:
-                    counter += self.sign_with(k, sighash)
+                    counter += self._sign_with_key(k, sighash, signed)
             return counter
+        return self._sign_with_key(root, sighash, signed)
 
+    def _sign_with_key(self, root, sighash, signed) -> int:
+        """Signs with one key, counts the signatures filed under slots that are not in signed yet"""
         # if WIF - fingerprint is None
         fingerprint = None
         # if descriptor key
@@ -1118,6 +1141,7 @@ class PSBT(EmbitBase):
                     i,
                     inp,
                     sighash=inp_sighash,
+                    signed=signed,
                 )
                 # sign with all derived keys
                 for prv, pub in derived_keypairs:
@@ -1126,6 +1150,7 @@ class PSBT(EmbitBase):
                         i,
                         inp,
                         sighash=inp_sighash,
+                        signed=signed,
                     )
                 continue
 
@@ -1138,7 +1163,7 @@ class PSBT(EmbitBase):
                 sig = (root.key if hasattr(root, "origin") else root).sign(h)
                 # sig plus sighash flag
                 inp.partial_sigs[rootpub] = sig.serialize() + bytes([inp_sighash])
-                counter += 1
+                counter += count_slot(signed, (i, rootpub))
 
             for prv, pub in derived_keypairs:
                 # already signed above with the same key, don't count it twice
@@ -1147,5 +1172,5 @@ class PSBT(EmbitBase):
                 sig = prv.sign(h)
                 # sig plus sighash flag
                 inp.partial_sigs[pub] = sig.serialize() + bytes([inp_sighash])
-                counter += 1
+                counter += count_slot(signed, (i, pub))
         return counter
